@@ -689,6 +689,83 @@ pub fn c20(tier: Tier) -> i32 {
         }
     });
     tot.merge(t_reuse);
+    // Owned-record iterators: skip(k) / nth(k) / count() must agree with plain stepping, also when an
+    // error item (invalid record, one transient source error) lies among the skipped items
+    let mut own_inputs: Vec<(Format, Vec<u8>)> = vec![];
+    for format in [Format::Fasta, Format::Fastq] {
+        for f in rec_files(format, 3, &[0], &[0], true) {
+            if !f.crlf && f.final_term {
+                own_inputs.push((format, f.bytes()));
+            }
+        }
+    }
+    let t_own = par_sweep(own_inputs.len() as u64, 4, |idx, l| {
+        use crate::env::{Chunk, Fault, FaultKind, IntPat, Src};
+        let (format, data) = &own_inputs[idx as usize];
+        let rc = std::rc::Rc::new(data.clone());
+        let caps: Vec<usize> = [3usize, 8, 16, data.len() + 2].to_vec();
+        for cap in caps {
+            // fault = None, or one transient error at source call 0..5
+            for fault_at in std::iter::once(None).chain((0..5).map(Some)) {
+                let mk_src = || Src::new(rc.clone(), Chunk::All, IntPat::None, fault_at.map(|at| Fault { at, kind: FaultKind::Other }));
+                let mut problems: Vec<String> = vec![];
+                macro_rules! own {
+                    ($m:ident) => {{
+                        let show = |x: Option<Result<seq_io::$m::OwnedRecord, seq_io::$m::Error>>| format!("{:?}", x);
+                        // reference: plain stepping
+                        let mut rdr = seq_io::$m::Reader::with_capacity(mk_src(), cap);
+                        let mut it = rdr.records();
+                        let steps: Vec<String> = (0..10).map(|_| show(it.next())).collect();
+                        for k in 0..5usize {
+                            let mut rdr = seq_io::$m::Reader::with_capacity(mk_src(), cap);
+                            let mut it = rdr.records().skip(k);
+                            let got: Vec<String> = (0..10 - k).map(|_| show(it.next())).collect();
+                            if got != steps[k..] {
+                                problems.push(format!("{} records().skip({}) yields {:?}, stepping yields {:?}", stringify!($m), k, got, &steps[k..]));
+                            }
+                            let mut rdr = seq_io::$m::Reader::with_capacity(mk_src(), cap);
+                            let mut it = rdr.records();
+                            let mut got = vec![show(it.nth(k))];
+                            got.extend((0..9 - k).map(|_| show(it.next())));
+                            if got != steps[k..] {
+                                problems.push(format!("{} records().nth({}) then stepping yields {:?}, stepping yields {:?}", stringify!($m), k, got, &steps[k..]));
+                            }
+                            let mut it = seq_io::$m::Reader::with_capacity(mk_src(), cap).into_records().skip(k);
+                            let got: Vec<String> = (0..10 - k).map(|_| show(it.next())).collect();
+                            if got != steps[k..] {
+                                problems.push(format!("{} into_records().skip({}) differs from stepping", stringify!($m), k));
+                            }
+                        }
+                        let n_some = steps.iter().take_while(|s| *s != "None").count();
+                        let cnt = seq_io::$m::Reader::with_capacity(mk_src(), cap).into_records().count();
+                        if cnt != n_some {
+                            problems.push(format!("{} into_records().count() = {}, stepping yields {} items before the end", stringify!($m), cnt, n_some));
+                        }
+                    }};
+                }
+                let res = catch_unwind(AssertUnwindSafe(|| match format {
+                    Format::Fasta => own!(fasta),
+                    Format::Fastq => own!(fastq),
+                }));
+                if let Err(e) = res {
+                    problems.push(format!("panic: {}", crate::rdr::panic_msg(e)));
+                }
+                l.evals += 1;
+                l.nontrivial += 1;
+                if let Some(p) = problems.first() {
+                    let class: String = p.split(|c: char| c.is_ascii_digit() || c == '=').next().unwrap_or("").trim().to_string();
+                    l.violation(Violation {
+                        property: "C20".into(),
+                        sig: format!("{}|{}", format.name(), class),
+                        detail: format!("input {:?} cap {} source error at call {:?}: {}", esc(data), cap, fault_at, p),
+                        weight: (data.len() * 100_000 + cap.min(99_999)) as u64,
+                        replay: json!({"kind": "iters", "format": format.name(), "input": data, "input_escaped": esc(data), "cap": cap, "fault_at": fault_at}),
+                    });
+                }
+            }
+        }
+    });
+    tot.merge(t_own);
     // FASTQ: RecordSetIter, RecordsIter, RecordsIntoIter incl. after an error
     let fq: Vec<Vec<u8>> = rec_files(Format::Fastq, 3, &[0], &[0, 2], true).iter().map(|f| f.bytes()).collect();
     let t2 = par_sweep(fq.len() as u64, 8, |idx, l| {
@@ -780,7 +857,7 @@ pub fn c20(tier: Tier) -> i32 {
         Report {
             property: "C20".into(),
             tier: tier.name().into(),
-            rule: format!("every FASTA record with m = 0..{} sequence lines over the line menu {{x, empty, xy, x<CR>y}} x LF/CRLF x final terminator x followed by another record or not, obtained from a record set under 3 capacities: ALL 2^(m+2) sequences of next/next_back steps on seq_lines() with len()/size_hint() checked after every step, items, meeting ends, sticky end; adaptor menu (enumerate().rev(), rev().enumerate(), zip, skip(0..n+1), collect, rposition, len) on the iterator after every (front, back) prefix; RecordSetIter (both formats) size hint + fused, also on ONE set reused over all batches (plain loop; exact(3),exact(1),...; exact(2),(3),(1),...) at every (third) capacity so that later, smaller batches carry stale entries; RecordsIter / RecordsIntoIter end sticky incl. after an error (FASTQ defect family, {} files)", max_lines, fq.len()),
+            rule: format!("every FASTA record with m = 0..{} sequence lines over the line menu {{x, empty, xy, x<CR>y}} x LF/CRLF x final terminator x followed by another record or not, obtained from a record set under 3 capacities: ALL 2^(m+2) sequences of next/next_back steps on seq_lines() with len()/size_hint() checked after every step, items, meeting ends, sticky end; adaptor menu (enumerate().rev(), rev().enumerate(), zip, skip(0..n+1), collect, rposition, len) on the iterator after every (front, back) prefix; RecordSetIter (both formats) size hint + fused, also on ONE set reused over all batches (plain loop; exact(3),exact(1),...; exact(2),(3),(1),...) at every (third) capacity so that later, smaller batches carry stale entries; RecordsIter / RecordsIntoIter end sticky incl. after an error (FASTQ defect family, {} files); records()/into_records() skip(k), nth(k), count() against plain stepping on valid and invalid inputs, also with one transient source error at call 0..4", max_lines, fq.len()),
             exhaustive: true,
             assumptions: vec!["line contents are drawn from a menu; the iterator logic depends only on the number of lines".into()],
             extra: json!({"states_note": "states = (record, consumed-front, consumed-back) triples; transitions = iterator steps executed"}),
